@@ -9,7 +9,7 @@ func init() {
 		ID: "C01", Level: "exploration", PanicClause: "C01.no_panic",
 		Cases: func(tier string) int {
 			if tier == "quick" {
-				return 2400
+				return 10000
 			}
 			return 160000
 		},
